@@ -222,6 +222,74 @@ def _tailify(stmts: List[ast.stmt], emit) -> Optional[List[ast.stmt]]:
     return out
 
 
+class _NoDeloop(Exception):
+    pass
+
+
+def _deloop(stmts: List[ast.stmt], ret: str, done: str) -> Optional[List[ast.stmt]]:
+    """Structured return elimination for a body whose ``return``s are not in tail position (inside loops, before further
+    statements): ``return E`` becomes ``ret = E; done = True`` (+ ``break`` inside a loop), a loop that may have returned is followed
+    by ``if done: break`` when it is itself inside a loop, and what follows a statement that may have returned outside any loop runs under
+    ``if not done``.  The result computes the same effects in the same order and leaves the value in *ret*."""
+    def setv(name, value):
+        return ast.Assign(targets=[ast.Name(id=name, ctx=ast.Store())], value=value)
+
+    def notdone():
+        return ast.UnaryOp(op=ast.Not(), operand=ast.Name(id=done, ctx=ast.Load()))
+
+    def seq(body: List[ast.stmt], in_loop: bool) -> List[ast.stmt]:
+        out: List[ast.stmt] = []
+        for i, s in enumerate(body):
+            if isinstance(s, ast.Return):
+                out.append(setv(ret, s.value if s.value is not None else ast.Constant(value=None)))
+                out.append(setv(done, ast.Constant(value=True)))
+                if in_loop:
+                    out.append(ast.Break())
+                return out
+            if not _returns_in(s):
+                out.append(s)
+                continue
+            is_loop = isinstance(s, (ast.For, ast.AsyncFor, ast.While))
+            if isinstance(s, ast.If):
+                new = ast.If(test=s.test, body=seq(list(s.body), in_loop) or [ast.Pass()], orelse=seq(list(s.orelse), in_loop))
+            elif is_loop:
+                if s.orelse:
+                    raise _NoDeloop()
+                new = copy.copy(s)
+                new.body = seq(list(s.body), True) or [ast.Pass()]
+            elif isinstance(s, (ast.With, ast.AsyncWith)):
+                new = copy.copy(s)
+                new.body = seq(list(s.body), in_loop) or [ast.Pass()]
+            elif isinstance(s, ast.Try):
+                if s.finalbody and any(_returns_in(x) for x in s.finalbody):
+                    raise _NoDeloop()
+                body_ret = any(_returns_in(x) for x in s.body)
+                oe = seq(list(s.orelse), in_loop)
+                if body_ret and oe and not in_loop:
+                    oe = [ast.If(test=notdone(), body=oe, orelse=[])]
+                hs = [ast.ExceptHandler(type=h.type, name=h.name, body=seq(list(h.body), in_loop) or [ast.Pass()]) for h in s.handlers]
+                new = ast.Try(body=seq(list(s.body), in_loop) or [ast.Pass()], handlers=hs, orelse=oe, finalbody=list(s.finalbody))
+            else:
+                raise _NoDeloop()
+            out.append(ast.copy_location(new, s))
+            rest = list(body[i + 1:])
+            if is_loop and in_loop:
+                out.append(ast.If(test=ast.Name(id=done, ctx=ast.Load()), body=[ast.Break()], orelse=[]))
+                continue
+            if in_loop and not is_loop:
+                continue                # a return inside became a break of the enclosing loop: what follows runs only without it
+            tail = seq(rest, in_loop)
+            if tail:
+                out.append(ast.If(test=notdone(), body=tail, orelse=[]))
+            return out
+        return out
+    try:
+        body = seq(list(stmts), False)
+    except _NoDeloop:
+        return None
+    return [setv(done, ast.Constant(value=False)), setv(ret, ast.Constant(value=None))] + body
+
+
 def _always_leaves(body: List[ast.stmt]) -> bool:
     if not body:
         return False
@@ -384,6 +452,20 @@ class Inliner:
             return e, f.id, False
         return None
 
+    def _statement_helper_call(self, e) -> bool:
+        """*e* is ``[not] self._helper(..)`` with a helper that is not a plain expression helper and answers with boolean constants."""
+        if isinstance(e, ast.UnaryOp) and isinstance(e.op, ast.Not):
+            e = e.operand
+        hit = self._call_of(e)
+        if hit is None:
+            return False
+        fn_ = self.helpers[hit[1]][1]
+        if _as_expr(_body(fn_)) is not None:
+            return False
+        nested_ = [y for x in ast.walk(fn_) if isinstance(x, (ast.FunctionDef, ast.AsyncFunctionDef, ast.Lambda)) and x is not fn_ for y in ast.walk(x) if isinstance(y, ast.Return)]
+        rets_ = [r for r in ast.walk(fn_) if isinstance(r, ast.Return) and r not in nested_]
+        return bool(rets_) and all(isinstance(r.value, ast.Constant) and isinstance(r.value.value, bool) for r in rets_)
+
     def _splice_stmt(self, s: ast.stmt, flag_if: Optional[ast.If] = None) -> Optional[List[ast.stmt]]:
         """Replacement statements for *s* if it is a statement-level helper call, else None.  *flag_if*: the statement that follows
         ``ok = self._helper(..)`` when it is ``if [not] ok: ...`` and nothing else reads ``ok`` - a helper that reports success
@@ -401,6 +483,16 @@ class Inliner:
         elif isinstance(s, (ast.For, ast.AsyncFor)):
             hit = self._call_of(s.iter)
             mode = "for"
+        elif isinstance(s, ast.If) and not s.orelse and isinstance(s.test, ast.BoolOp) and isinstance(s.test.op, ast.And) and \
+                self._statement_helper_call(s.test.values[-1]) and not any(self._call_of(y) for v in s.test.values[:-1] for y in ast.walk(v)):
+            # if A and self._helper(..): BODY   ==   if A: if self._helper(..): BODY   (no else clause to duplicate)
+            vals = s.test.values[:-1]
+            outer = vals[0] if len(vals) == 1 else ast.BoolOp(op=ast.And(), values=list(vals))
+            inner = ast.copy_location(ast.If(test=s.test.values[-1], body=list(s.body), orelse=[]), s)
+            res0 = [ast.copy_location(ast.If(test=outer, body=[inner], orelse=[]), s)]
+            ast.fix_missing_locations(res0[0])
+            self.inlined_sites.setdefault("<and-split>", 0)
+            return res0
         elif isinstance(s, ast.If) and not s.orelse:
             # if [not] self._helper(..): BODY   with a helper that answers with boolean constants only: each ``return True / False`` of
             # the helper becomes BODY or nothing
@@ -506,6 +598,17 @@ class Inliner:
             res = _tailify(body, emit)
         else:
             return None
+        if res is None and (mode in ("void", "iftest") or (mode == "assign" and flag_if is not None)):
+            # returns that are not in tail position (inside loops, before further statements): flag form
+            self.counter += 1
+            rn, dn = f"__ret{self.counter}", f"__done{self.counter}"
+            res = _deloop(body, rn, dn)
+            if res is not None:
+                if mode == "iftest" or (mode == "assign" and flag_if is not None):
+                    the_if = s if mode == "iftest" else flag_if
+                    neg2 = isinstance(the_if.test, ast.UnaryOp) and isinstance(the_if.test.op, ast.Not)
+                    tst = ast.Name(id=rn, ctx=ast.Load())
+                    res.append(ast.If(test=ast.UnaryOp(op=ast.Not(), operand=tst) if neg2 else tst, body=[copy.deepcopy(x) for x in the_if.body], orelse=[]))
         if res is None:
             return None
         res = res or [ast.Pass()]
